@@ -37,9 +37,9 @@ def runOps : View → List String → List String → List String
         runOps v rest (showV showHex (getRow v y buf) :: acc)
       | _, _ => "bad-op" :: acc
     | ["c", l, t, w, h] =>
-      match parseInt? l, parseInt? t, parseNat? w, parseNat? h with
+      match parseInt? l, parseInt? t, parseInt? w, parseInt? h with
       | some l, some t, some w, some h =>
-        match crop v l t w h with
+        match cropI v l t w h with
         | .ok v' => runOps v' rest ("ok" :: acc)
         | e => runOps v rest (showV (fun _ => "ok") e :: acc)
       | _, _, _, _ => "bad-op" :: acc
